@@ -122,7 +122,7 @@ SPECS = {
     "C15": S(profiles=[("core-mix", 0.5), ("keys", 0.25), ("groups", 0.25)], projection="PExec", twin="encode",
              chk2="fun c t p => chk_C15 (cs_impl c) t",
              rule="non-trivial: at least one function's signature was rewritten (parameters wrapped into dig.In objects, results into dig.Out, variadic added, name/group moved to tags) and some Invoke executed it"),
-    "C16": S(profiles=[("core-mix", 0.6), ("trees", 0.4)], projection="PExecSet", twin="permute",
+    "C16": S(profiles=[("core-mix", 0.3), ("trees", 0.3), ("cycles", 0.2), ("decor", 0.2)], projection="PExecSet", twin="permute",
              chk2="fun c t p => chk_C16 (cs_hist c) p (cs_impl c) t",
              rule="non-trivial: the permuted twin differs from the original in the order of >=2 accepted registrations, a scope creation, or the defer option"),
     "C17": S(profiles=[("dry", 1.0)], projection="PVerdict", twin="undry",
@@ -276,7 +276,22 @@ def permute_case(c, trace, rng):
             i = j
         else:
             i += 1
-    # move one scope creation as early as legal (right after its parent exists)
+    # move one scope creation earlier or later, as far as legal without crossing another scope creation
+    # (scope numbers stay what they are): not past the first operation that uses the scope
+    cur = [ops[k] for k in order]
+    scope_pos = [k for k, o in enumerate(cur) if o["op"] == "scope"]
+    if scope_pos and rng.random() < 0.7:
+        k = rng.choice(scope_pos)
+        sid = 1 + scope_pos.index(k)
+        lo = max([q + 1 for q in scope_pos if q < k] + [0])
+        hi = k
+        while hi + 1 < n and cur[hi + 1]["op"] != "scope" and cur[hi + 1].get("scope", 0) != sid:
+            hi += 1
+        cands = [j for j in range(lo, hi + 1) if j != k]
+        if cands:
+            j = rng.choice(cands)
+            x = order.pop(k)
+            order.insert(j, x)
     new_ops = [ops[k] for k in order]
     c2 = copy.deepcopy(dict(c, ops=new_ops))
     c2["id"] += "~perm"
